@@ -37,6 +37,15 @@ def main():
         ctx.obligation("lake build: model + native driver", ok_drv)
         ctx.obligation("lake build: proofs (incl. lemmas over the tables regenerated from /repo)", ok_prf)
         ctx.build_failed = not ok
+        if ok and args.tier == "thorough" and os.environ.get("VERIF_LEANCHECKER", "1") != "0":
+            lc_ok, lc_out, lc_dt = common.leanchecker_recheck()
+            ctx.count("leanchecker_s", round(lc_dt, 1))
+            if lc_ok is None:
+                ctx.notes.append(lc_out)          # tool unavailable / timed out: recorded, not a verdict
+            else:
+                ctx.obligation("leanchecker: independent kernel re-check of all compiled modules (Adc, AdcProofs)", lc_ok)
+                if not lc_ok:
+                    ctx.notes.append("leanchecker: " + lc_out)
         if not ok:
             ctx.notes.append("lake build failed: " + out[-1500:])
             if hasattr(mod, "on_build_failure"):
